@@ -5,6 +5,7 @@
 //!   zz <i64> | uzz <u64> | vi.enc <i64> | vi.dec <hex> | vi.read <hex> | vi.cmp <hex> <hex>
 //!   blob.enc <hex> | blob.dec <hex> | blob.cmp <hex> <hex>
 //!   ser <val> | wr <val> <cursor> <extra> | de <kind> <cursor> <hexbuf> | cast <val> <kind>
+//!   pair <a> <b> | hash <val> | laws <v1> [<v2> [<v3> [<v4>]]]
 //! Values: `n`, `b:0|1`, `i:<i32>`, `I:<i64>`, `u:<u32>`, `U:<u64>`, `f:<f32 bits>`, `d:<f64 bits>`, `x:<hex|->`.
 use super::{Case, Engine, Tier};
 use crate::rng::Rng;
@@ -143,6 +144,129 @@ fn deser(kind: DataTypeKind, buf: &AlignedBuf, cursor: usize) -> Result<(DataTyp
     }
 }
 
+/// A `Hasher` that records the byte stream it is fed (what `Hash for DataType` writes), so that hash equality is
+/// observed independently of any particular hash function.
+#[derive(Default)]
+struct Recorder(Vec<u8>);
+
+impl std::hash::Hasher for Recorder {
+    fn finish(&self) -> u64 {
+        0
+    }
+    fn write(&mut self, bytes: &[u8]) {
+        self.0.extend_from_slice(bytes);
+    }
+}
+
+fn hash_stream(v: &DataType) -> Vec<u8> {
+    use std::hash::Hash;
+    let mut r = Recorder::default();
+    v.hash(&mut r);
+    r.0
+}
+
+/// The borrowed form (`DataTypeRef`) of a value: obtained by serializing it and reading it back.
+fn ref_buf(v: &DataType) -> Option<AlignedBuf> {
+    v.serialize().ok().map(|bs| AlignedBuf::from(&bs))
+}
+
+fn to_ref<'a>(v: &DataType, buf: &'a Option<AlignedBuf>) -> Option<DataTypeRef<'a>> {
+    if v.is_null() {
+        return Some(DataTypeRef::Null);
+    }
+    let buf = buf.as_ref()?;
+    v.kind().deserialize(buf.as_ref(), 0).ok().map(|(r, _)| r)
+}
+
+fn cmp_name(o: Option<Ordering>) -> &'static str {
+    match o {
+        Some(o) => ord_name(o),
+        None => "none",
+    }
+}
+
+fn tf(b: bool) -> &'static str {
+    if b { "t" } else { "f" }
+}
+
+fn ok_fail(b: bool) -> &'static str {
+    if b { "ok" } else { "FAIL" }
+}
+
+/// `Sort::compare_keys` for one ascending NULLS FIRST key (runtime/ops/sort.rs:58-89).
+fn sort_cmp(a: &DataType, b: &DataType) -> Ordering {
+    match (a, b) {
+        (DataType::Null, DataType::Null) => Ordering::Equal,
+        (DataType::Null, _) => Ordering::Less,
+        (_, DataType::Null) => Ordering::Greater,
+        _ => a.partial_cmp(b).unwrap_or(Ordering::Equal),
+    }
+}
+
+fn cls(v: &DataType) -> u8 {
+    match v {
+        DataType::Null => 0,
+        DataType::Bool(_) => 1,
+        DataType::Blob(_) => 3,
+        _ => 2,
+    }
+}
+
+fn laws(vs: &[DataType]) -> String {
+    let e = |a: &DataType, b: &DataType| a == b;
+    let c = |a: &DataType, b: &DataType| a.partial_cmp(b);
+    let hs: Vec<Vec<u8>> = vs.iter().map(hash_stream).collect();
+    let n = vs.len();
+    let (mut refl, mut sym, mut trans, mut ord, mut consist, mut total, mut hash, mut sortord) =
+        (true, true, true, true, true, true, true, true);
+    for i in 0..n {
+        refl &= e(&vs[i], &vs[i]);
+        for j in 0..n {
+            let (a, b) = (&vs[i], &vs[j]);
+            sym &= e(a, b) == e(b, a) && c(a, b) == c(b, a).map(Ordering::reverse);
+            if cls(a) != 0 && cls(b) != 0 {
+                consist &= (c(a, b) == Some(Ordering::Equal)) == e(a, b);
+            }
+            if cls(a) != 0 && cls(a) == cls(b) {
+                total &= c(a, b).is_some();
+            }
+            if e(a, b) {
+                hash &= hs[i] == hs[j];
+            }
+            for k in 0..n {
+                let x = &vs[k];
+                if e(a, b) && e(b, x) {
+                    trans &= e(a, x);
+                }
+                if c(a, b) == Some(Ordering::Less) && c(b, x) == Some(Ordering::Less) {
+                    ord &= c(a, x) == Some(Ordering::Less);
+                }
+                if c(a, b) == Some(Ordering::Equal) {
+                    ord &= c(a, x) == c(b, x);
+                }
+                sortord &= sort_cmp(a, b) == sort_cmp(b, a).reverse();
+                if sort_cmp(a, b) == Ordering::Less && sort_cmp(b, x) == Ordering::Less {
+                    sortord &= sort_cmp(a, x) == Ordering::Less;
+                }
+                if sort_cmp(a, b) == Ordering::Equal && sort_cmp(b, x) == Ordering::Equal {
+                    sortord &= sort_cmp(a, x) == Ordering::Equal;
+                }
+            }
+        }
+    }
+    format!(
+        "sortord={} refl={} sym={} trans={} ord={} consist={} total={} hash={}",
+        ok_fail(sortord),
+        ok_fail(refl),
+        ok_fail(sym),
+        ok_fail(trans),
+        ok_fail(ord),
+        ok_fail(consist),
+        ok_fail(total),
+        ok_fail(hash)
+    )
+}
+
 fn exec_line(line: &str) -> String {
     let ws: Vec<&str> = line.split_whitespace().collect();
     match ws.as_slice() {
@@ -277,6 +401,48 @@ fn exec_line(line: &str) -> String {
             }
             _ => "bad-op".into(),
         },
+        ["pair", a, b] => match (parse_value(a), parse_value(b)) {
+            (Some(a), Some(b)) => {
+                let (ha, hb) = (hash_stream(&a), hash_stream(&b));
+                let eq = a == b;
+                let cmp = a.partial_cmp(&b);
+                // the borrowed forms (what the B+tree and the tuple reader compare) must agree with the owned ones
+                let (ba, bb) = (ref_buf(&a), ref_buf(&b));
+                let ref_ok = match (to_ref(&a, &ba), to_ref(&b, &bb)) {
+                    (Some(ra), Some(rb)) => {
+                        use std::hash::Hash;
+                        let mut h1 = Recorder::default();
+                        ra.hash(&mut h1);
+                        let mut h2 = Recorder::default();
+                        rb.hash(&mut h2);
+                        (ra == rb) == eq && ra.partial_cmp(&rb) == cmp && h1.0 == ha && h2.0 == hb
+                    }
+                    _ => false,
+                };
+                format!(
+                    "eq={} cmp={} heq={} sort={}{} ## ha={} hb={}",
+                    tf(eq),
+                    cmp_name(cmp),
+                    tf(ha == hb),
+                    ord_name(sort_cmp(&a, &b)),
+                    if ref_ok { "" } else { " REFDIFF" },
+                    hex(&ha),
+                    hex(&hb)
+                )
+            }
+            _ => "bad-op".into(),
+        },
+        ["hash", v] => match parse_value(v) {
+            Some(v) => hex(&hash_stream(&v)),
+            None => "bad-op".into(),
+        },
+        ["laws", vs @ ..] if !vs.is_empty() && vs.len() <= 4 => {
+            let vals: Option<Vec<DataType>> = vs.iter().map(|v| parse_value(v)).collect();
+            match vals {
+                Some(vals) => laws(&vals),
+                None => "bad-op".into(),
+            }
+        }
         ["cast", v, k] => match (parse_value(v), parse_kind(k)) {
             (Some(v), Some(k)) => match v.try_cast(k) {
                 Ok(w) => format!("ok {}", show_value(&w)),
@@ -301,6 +467,7 @@ impl Engine for ValueEngine {
         gen_blob(rng, scale, &mut cases);
         gen_serialize(rng, scale, &mut cases);
         gen_cast(rng, scale, &mut cases);
+        gen_compare(rng, scale, &mut cases);
         cases
     }
 }
@@ -959,6 +1126,176 @@ fn gen_cast(rng: &mut Rng, scale: u64, cases: &mut Vec<Case>) {
         let (kname, _) = *rng.pick(&KINDS);
         let t = format!("to-{}", kname);
         cases.push(Case::new(format!("cast {} {}", v, kname), &["cast", "random", kind_tag(&v), &t, "nt"]));
+    }
+}
+
+/// A small grid on which pairs and triples are exhaustive: every kind, every boundary that matters for
+/// comparison (2^24, 2^53 ± 1, 2^63, 2^64, ±0.0, NaNs, ±inf, subnormals, empty / prefix / long blobs, NULL).
+fn compare_grid() -> Vec<String> {
+    let mut g: Vec<String> = vec!["n".into(), "b:0".into(), "b:1".into()];
+    for v in [0i32, 1, -1, i32::MIN, i32::MAX, 16777216, 16777217, -16777217] {
+        g.push(format!("i:{}", v));
+    }
+    let p53 = 1i64 << 53;
+    for v in [0i64, 1, -1, i64::MIN, i64::MAX, i64::MAX - 1, 16777217, p53 - 1, p53, p53 + 1, p53 + 2, -p53, -p53 - 1, 1 << 62] {
+        g.push(format!("I:{}", v));
+    }
+    for v in [0u32, 1, u32::MAX, 16777217] {
+        g.push(format!("u:{}", v));
+    }
+    for v in [0u64, 1, u64::MAX, u64::MAX - 1, 1 << 53, (1 << 53) + 1, 1 << 63, (1 << 63) + 1, i64::MAX as u64] {
+        g.push(format!("U:{}", v));
+    }
+    for v in [0.0f32, -0.0, 1.0, -1.0, 0.5, 16777216.0, f32::MAX, f32::MIN_POSITIVE, f32::INFINITY, f32::NEG_INFINITY, 0.1] {
+        g.push(format!("f:{}", v.to_bits()));
+    }
+    g.push(format!("f:{}", 0x7fc0_0000u32));
+    g.push(format!("f:{}", 0xffc0_0001u32));
+    g.push(format!("f:{}", 1u32));
+    for v in [
+        0.0f64,
+        -0.0,
+        1.0,
+        -1.0,
+        0.5,
+        0.1,
+        0.1f32 as f64,
+        16777217.0,
+        9007199254740992.0,
+        9007199254740994.0,
+        -9007199254740992.0,
+        9223372036854775808.0,
+        -9223372036854775808.0,
+        18446744073709551616.0,
+        f64::MAX,
+        f64::MIN_POSITIVE,
+        f64::INFINITY,
+        f64::NEG_INFINITY,
+    ] {
+        g.push(format!("d:{}", v.to_bits()));
+    }
+    g.push(format!("d:{}", 0x7ff8_0000_0000_0000u64));
+    g.push(format!("d:{}", 0xfff8_0000_0000_0001u64));
+    g.push(format!("d:{}", 0x7ff0_0000_0000_0001u64));
+    g.push(format!("d:{}", 1u64));
+    g.push(format!("d:{}", (1u64 << 63) | 1));
+    for b in [&b""[..], b"a", b"ab", b"b", &[0u8][..], &[0xffu8][..], b"abcdefgh", b"abcdefghi", b"abcdefghj"] {
+        g.push(format!("x:{}", hex_or_dash(b)));
+    }
+    g.push(format!("x:{}", hex(&vec![b'z'; 300])));
+    g
+}
+
+fn pair_tags(a: &str, b: &str) -> Vec<String> {
+    let mut t = vec!["pair".to_string(), "nt".to_string()];
+    t.push(format!("{}~{}", &kind_tag(a)[2..], &kind_tag(b)[2..]));
+    t
+}
+
+fn gen_compare(rng: &mut Rng, scale: u64, cases: &mut Vec<Case>) {
+    let grid = compare_grid();
+    // exhaustive pairs on the grid
+    for a in &grid {
+        cases.push(Case::new(format!("hash {}", a), &["hash", "grid", kind_tag(a), "nt"]));
+        for b in &grid {
+            let tags = pair_tags(a, b);
+            let mut tr: Vec<&str> = tags.iter().map(|s| s.as_str()).collect();
+            tr.push("grid");
+            cases.push(Case::new(format!("pair {} {}", a, b), &tr));
+        }
+    }
+    // exhaustive triples on the numeric part of the grid would be ~10^5; take all triples of a sub-grid that holds
+    // one representative of every phenomenon, and random triples of the full grid
+    let sub: Vec<&String> = grid
+        .iter()
+        .filter(|v| {
+            matches!(
+                v.as_str(),
+                "n" | "b:0" | "b:1" | "i:0" | "i:1" | "I:9007199254740992" | "I:9007199254740993" | "I:9223372036854775807"
+                    | "U:9007199254740993" | "U:18446744073709551615" | "U:9223372036854775808" | "f:0" | "f:2147483648"
+                    | "f:2143289344" | "d:0" | "d:9223372036854775808" | "d:4845873199050653696" | "d:9221120237041090560"
+                    | "d:9218868437227405312" | "d:4890909195324358656" | "x:-" | "x:61" | "x:6162"
+            )
+        })
+        .collect();
+    for a in &sub {
+        for b in &sub {
+            for c in &sub {
+                cases.push(Case::new(format!("laws {} {} {}", a, b, c), &["laws", "laws-subgrid", "nt"]));
+            }
+        }
+    }
+    for _ in 0..3000 * scale {
+        let (a, b, c) = (rng.pick(&grid), rng.pick(&grid), rng.pick(&grid));
+        cases.push(Case::new(format!("laws {} {} {}", a, b, c), &["laws", "laws-grid-random", "nt"]));
+    }
+    // random pairs: a random value against a related one
+    let big = value_grid();
+    for _ in 0..8000 * scale {
+        let a = if rng.chance(1, 2) { rng.pick(&big).clone() } else { rand_value(rng) };
+        let b = match rng.below(5) {
+            0 => a.clone(),
+            1 => rng.pick(&big).clone(),
+            2 => rand_value(rng),
+            _ => related_value(rng, &a),
+        };
+        let tags = pair_tags(&a, &b);
+        let mut tr: Vec<&str> = tags.iter().map(|s| s.as_str()).collect();
+        tr.push("random");
+        cases.push(Case::new(format!("pair {} {}", a, b), &tr));
+    }
+    for _ in 0..1500 * scale {
+        let a = rand_value(rng);
+        let b = related_value(rng, &a);
+        let c = if rng.chance(1, 2) { related_value(rng, &b) } else { rand_value(rng) };
+        cases.push(Case::new(format!("laws {} {} {}", a, b, c), &["laws", "laws-random", "nt"]));
+    }
+    for _ in 0..500 * scale {
+        let v = rand_value(rng);
+        cases.push(Case::new(format!("hash {}", v), &["hash", "random", kind_tag(&v), "nt"]));
+    }
+}
+
+/// A value that is numerically equal or adjacent to `a` but of another kind / encoding where possible.
+fn related_value(rng: &mut Rng, a: &str) -> String {
+    let Some(v) = parse_value(a) else { return a.to_string() };
+    let as_i128: Option<i128> = match &v {
+        DataType::Int(i) => Some(i.0 as i128),
+        DataType::BigInt(i) => Some(i.0 as i128),
+        DataType::UInt(i) => Some(i.0 as i128),
+        DataType::BigUInt(i) => Some(i.0 as i128),
+        DataType::Float(f) if f.0.is_finite() && f.0.abs() < 1e19 => Some(f.0 as i128),
+        DataType::Double(f) if f.0.is_finite() && f.0.abs() < 1e19 => Some(f.0 as i128),
+        _ => None,
+    };
+    match (&v, as_i128) {
+        (DataType::Blob(b), _) => {
+            let d = b.data().unwrap_or(&[]).to_vec();
+            format!("x:{}", hex_or_dash(&related_blob(rng, &d).0))
+        }
+        (_, Some(n)) => {
+            let n = n + rng.range(-1, 1) as i128;
+            match rng.below(6) {
+                0 if n >= i32::MIN as i128 && n <= i32::MAX as i128 => format!("i:{}", n),
+                1 if n >= 0 && n <= u32::MAX as i128 => format!("u:{}", n),
+                2 if n >= 0 && n <= u64::MAX as i128 => format!("U:{}", n),
+                3 => format!("f:{}", (n as f32).to_bits()),
+                4 => format!("d:{}", (n as f64).to_bits()),
+                _ if n >= i64::MIN as i128 && n <= i64::MAX as i128 => format!("I:{}", n),
+                _ => format!("d:{}", (n as f64).to_bits()),
+            }
+        }
+        (DataType::Double(f), None) => match rng.below(3) {
+            0 => format!("f:{}", (f.0 as f32).to_bits()),
+            1 => format!("d:{}", f.0.to_bits() ^ (1 << 63)),
+            _ => format!("d:{}", f.0.to_bits().wrapping_add(rng.range(-1, 1) as u64)),
+        },
+        (DataType::Float(f), None) => match rng.below(3) {
+            0 => format!("d:{}", (f.0 as f64).to_bits()),
+            1 => format!("f:{}", f.0.to_bits() ^ (1 << 31)),
+            _ => format!("f:{}", f.0.to_bits().wrapping_add(rng.range(-1, 1) as u32)),
+        },
+        _ => rand_value(rng),
     }
 }
 
